@@ -152,7 +152,7 @@ def run_plan(ctx, props, plan, quick, extra_random=None, lzip_scan=False, workqu
     # ---------------- randomized schedules on the real code (every configuration)
     logged = []
     for c in plan:
-        nr, npct = (n_rand, n_pct)
+        nr, npct = (n_rand * c.get("weight", 1), n_pct * c.get("weight", 1))
         for i in range(nr):
             s = make_scn(c, f"rand-{c['name']}-{i}", {"kind": "random", "seed": rnd.getrandbits(40)})
             if i < n_valid:
